@@ -213,7 +213,22 @@ def _e2e(m0: str, m: str, turns: int, cancel: bool, warm: bool) -> tuple:
     from vgi_rpc.http._testing import make_sync_client
 
     del E2E_LOG[:]
-    client = make_sync_client(RpcServer(E2EService, E2EImpl()), token_key=b"k" * 32, call_state_cache_entries=4096 if warm else 0)
+    inner = make_sync_client(RpcServer(E2EService, E2EImpl()), token_key=b"k" * 32, call_state_cache_entries=4096 if warm else 0)
+
+    class _Recording:
+        """The same client; remembers where each POST went."""
+
+        urls: list = []
+
+        def post(self, url, **kw):  # type: ignore[no-untyped-def]
+            self.urls.append(url)
+            return inner.post(url, **kw)
+
+        def __getattr__(self, name):  # type: ignore[no-untyped-def]
+            return getattr(inner, name)
+
+    client = _Recording()
+    client.urls = []
     batch = AnnotatedBatch.from_pydict({"x": [1]}, _E2E_IN)
     try:
         with http_connect(E2EService, client=client) as proxy:
@@ -224,16 +239,21 @@ def _e2e(m0: str, m: str, turns: int, cancel: bool, warm: bool) -> tuple:
                 except Exception as e:  # noqa: BLE001
                     return True, f"POST /{m0}/exchange refused a regular turn of the stream its own /init opened: {type(e).__name__}: {str(e)[:120]}"
             session._method = m  # the same tokens, POSTed to /{m}/exchange
-            n0 = len(E2E_LOG)
+            n0, u0 = len(E2E_LOG), len(client.urls)
+
+            def at_foreign_endpoint() -> bool:
+                # judge only a request that really went to the other method's endpoint (the client may compute its URL differently)
+                return bool(client.urls[u0:]) and all(u.rstrip("/").endswith(f"/{m}/exchange") for u in client.urls[u0:])
+
             if cancel:
                 session.cancel()
-                ran = [e for e in E2E_LOG[n0:] if e[0] == "on_cancel" and e[1] == m]
-                return bool(ran), f"POST /{m}/exchange (cancel) with the tokens minted by /{m0}/init ran on_cancel: {ran}"
+                ran = [e for e in E2E_LOG[n0:] if e[0] == "on_cancel"]
+                return bool(ran) and at_foreign_endpoint(), f"POST /{m}/exchange (cancel) with the tokens minted by /{m0}/init ran on_cancel: {ran}"
             try:
                 out = session.exchange(batch)
             except Exception as e:  # noqa: BLE001
                 return False, f"rejected: {type(e).__name__}: {str(e)[:120]}"
-            return True, f"POST /{m}/exchange with the tokens minted by /{m0}/init was served: {out.batch.to_pydict()} (server log {E2E_LOG[n0:]}; /{m}/init never ran)"
+            return at_foreign_endpoint(), f"POST {client.urls[-1] if client.urls else '?'} with the tokens minted by /{m0}/init was served: {out.batch.to_pydict()} (server log {E2E_LOG[n0:]}; /{m}/init never ran)"
     finally:
         client.close()
 
@@ -261,7 +281,7 @@ def _replay(args: dict) -> str | None:
     return None
 
 
-@cond(q=60, t=300, stubs=[*tc.TOKEN_STUBS, *tc.DISPATCH_STUBS], encoded=ENCODED, bound=BOUNDS, replay=_replay, signature=lambda a, c: SIG)
+@cond(q=60, t=300, stubs=[*tc.TOKEN_STUBS, *tc.DISPATCH_STUBS], encoded=ENCODED, bound=BOUNDS, replay=_replay, signature=lambda a, c: SIG if a.get("m") != a.get("m0") else "C13:own-endpoint:refused")
 def tokens_accepted_only_at_minting_method(m0: int, m: int, turns: int, cancel: bool, warm: bool) -> bool:
     """
     pre: 0 <= m0 <= 7 and 0 <= m <= 7 and 0 <= turns <= 1
@@ -275,8 +295,10 @@ def tokens_accepted_only_at_minting_method(m0: int, m: int, turns: int, cancel: 
     if processed == ["own-endpoint turn failed"]:
         return False  # the minting method's own endpoint refused a regular turn
     if m == m0:
-        return served and len(processed) == 1 and processed[0][0] == ("on_cancel" if cancel else "turn") and processed[0][2 if cancel else 1] == _METHODS[m]
-    return (not served) and not processed and err is not None and err[0] == 400
+        # functional direction: the minting method's own endpoint processes the request (how often a hook may run is C10's subject)
+        kind = "on_cancel" if cancel else "turn"
+        return served and len(processed) >= 1 and all(ev[0] == kind for ev in processed) and (cancel or all(ev[1] == _METHODS[m] for ev in processed))
+    return (not served) and not processed and err is not None and 400 <= err[0] < 500  # "rejected": a client error, no user code ran
 
 
 # ---------------------------------------------------------------------------
@@ -300,7 +322,8 @@ def _replay_binding(cex: dict) -> dict:
         try:
             st._open_call_token(tc.RealWorld.relabel(cursor, st._CALL_TOKEN_VERSION), key, st._compute_call_aad(y, m2))
         except Exception as e:  # noqa: BLE001
-            return none if tc.http_error_info(e) == (400, "Call token signature verification failed") else {"verdict": "VIOLATION", "replayed": True, "signature": "C13:method-binding:cursor-opens-as-call", "detail": f"cursor token of {x!r} authenticates as a call token of {y!r}/{m2!r}: {e!r}"}
+            info = tc.http_error_info(e)
+            return none if info is not None and 400 <= info[0] < 500 else {"verdict": "VIOLATION", "replayed": True, "signature": "C13:method-binding:cursor-opens-as-call", "detail": f"cursor token of {x!r} authenticates as a call token of {y!r}/{m2!r}: {e!r}"}
         return {"verdict": "VIOLATION", "replayed": True, "signature": "C13:method-binding:cursor-opens-as-call", "detail": f"cursor token of {x!r} opens as a call token of {y!r} at method {m2!r}"}
     if m1 is None or m2 is None or (m1 == m2 and tc.real_identity(x) == tc.real_identity(y)):
         return none
